@@ -201,9 +201,22 @@ def job(j):
         D = so.make_degenerate(rng, what, d)
         fit = so._call(ts.fit_mvstud, D)
         om = so.observe_modes(tm, ts, D, np.ones(len(D)), fallback=7.5, seed=1, observe=False)
+        # whatever a construction on degenerate data does (raise, or return something), a dof that REACHES the kernel is finite and
+        # positive: "non-finite degrees of freedom are replaced by the configured fallback before they reach the kernel"
+        dof_bad = None
+        cons = [("from_global", om)]
+        if len(D) >= 6:
+            labs = np.zeros(len(D), dtype=int)
+            labs[-1] = 1   # one label owns a single particle (a collapsed cluster next to an ordinary one)
+            cons.append(("from_particles(single-particle label)", so.observe_modes(tm, ts, D, np.ones(len(D)), labels=labs, fallback=7.5, seed=2, observe=False)))
+        for nm2, o2 in cons:
+            if o2.get("ms") is not None:
+                dofs = np.asarray(o2["ms"].degrees_of_freedom, dtype=float)
+                if not (np.all(np.isfinite(dofs)) and np.all(dofs > 0)):
+                    dof_bad = f"{nm2}: degrees of freedom {dofs.tolist()}"
         for nm_, oc in (("fit", so.outcome(fit)), ("from_global", so.outcome(om))):
             out["items"].append({"kind": "degen", "info": {"what": what + ":" + nm_, "outcome": oc}})
-            out["meta"].append({"what": "degen", "k": k, "d": max(d, 2), "case": what + ":" + nm_, "outcome": oc})
+            out["meta"].append({"what": "degen", "k": k, "d": max(d, 2), "case": what + ":" + nm_, "outcome": oc, "dof_bad": dof_bad if nm_ == "from_global" else None})
     return out
 
 
@@ -302,9 +315,10 @@ def main():
         with open(ck.args.replay) as f:
             rep = json.load(f)["replay"]
         j = {"seed": rep["seed"], "k": rep["k"], "maps": [(rep["slot"], rep["attempt"])] if rep.get("slot") is not None else [], "nslots": rep["nslots"],
-             "modes": rep.get("what") == "modes", "degen": None}
+             "modes": rep.get("what") == "modes", "degen": (rep.get("case", "").split(":")[0] or None) if rep.get("what") == "degen" else None}
         r = job(j)
         fails, ties, _, _ = validate(r["items"], coverage=False)
+        fails = list(fails) + [{"clause": "degenerate:kernel-dof", "what": m_["dof_bad"]} for m_ in r["meta"] if m_.get("dof_bad")]
         print(json.dumps([m.get("diag", m) for m in r["meta"]], indent=1, default=core._js))
         print("replay:", "REPRODUCED " + str(fails) if fails else "did not reproduce")
         if fails:
@@ -391,6 +405,9 @@ def main():
         nxt = {}
         for pid, (it, m) in enumerate(zip(items, metas), start=1):
             fl = fail_by_pid.get(pid, [])
+            if m["what"] == "degen" and m.get("dof_bad"):
+                ck.violation("degenerate:kernel-dof", f"ModeStatistics on degenerate data ({m['case']}) was constructed with non-finite / non-positive degrees of freedom: {m['dof_bad']}",
+                             {"seed": ck.seed, "k": m["k"], "what": "degen", "case": m["case"], "nslots": nslots})
             if m["what"] == "pair" and not fl:  # worst errors of accepted pairs (what the pinned arithmetic achieves)
                 dg = m["diag"]
                 if not dg["tol"]["exact"]:
